@@ -461,6 +461,10 @@ htp_status_t htp_connp_REQ_BODY_CHUNKED_DATA(htp_connp_t *connp) {
     // If the input buffer is empty, ask for more data.
     if (bytes_to_consume == 0) return HTP_DATA;
 
+    // Keep track of the body size before decompression; the compression
+    // bomb check made while the data is processed relies on it.
+    connp->in_tx->request_message_len += bytes_to_consume;
+
     // Consume the data.
     htp_status_t rc = htp_tx_req_process_body_data_ex(connp->in_tx, connp->in_current_data + connp->in_current_read_offset, bytes_to_consume);
     if (rc != HTP_OK) return rc;
@@ -469,7 +473,6 @@ htp_status_t htp_connp_REQ_BODY_CHUNKED_DATA(htp_connp_t *connp) {
     connp->in_current_read_offset += bytes_to_consume;
     connp->in_current_consume_offset += bytes_to_consume;
     connp->in_stream_offset += bytes_to_consume;
-    connp->in_tx->request_message_len += bytes_to_consume;
     connp->in_chunked_length -= bytes_to_consume;
 
     if (connp->in_chunked_length == 0) {
@@ -556,6 +559,10 @@ htp_status_t htp_connp_REQ_BODY_IDENTITY(htp_connp_t *connp) {
     // If the input buffer is empty, ask for more data.
     if (bytes_to_consume == 0) return HTP_DATA;
 
+    // Keep track of the body size before decompression; the compression
+    // bomb check made while the data is processed relies on it.
+    connp->in_tx->request_message_len += bytes_to_consume;
+
     // Consume data.
     int rc = htp_tx_req_process_body_data_ex(connp->in_tx,
             (connp->in_current_data == NULL) ? NULL : connp->in_current_data + connp->in_current_read_offset, bytes_to_consume);
@@ -565,7 +572,6 @@ htp_status_t htp_connp_REQ_BODY_IDENTITY(htp_connp_t *connp) {
     connp->in_current_read_offset += bytes_to_consume;
     connp->in_current_consume_offset += bytes_to_consume;
     connp->in_stream_offset += bytes_to_consume;
-    connp->in_tx->request_message_len += bytes_to_consume;
     connp->in_body_data_left -= bytes_to_consume;
 
     if (connp->in_body_data_left == 0) {
